@@ -65,6 +65,47 @@ fn check_spec<K: Kit>(ctx: &Ctx, kit: &K, seed: u64, n_lattice: usize, n_random:
             json!({"kind":"metric","spec":spec.to_json(),"a":fjs(a),"b":fjs(bb),"c":c.map(fjs)}),
         );
     };
+    // Beyond the range in which squares are representable (coordinates around 1e200) a distance
+    // may honestly overflow to +inf, or stay finite in an overflow-safe implementation; either
+    // way it is a number, not negative, the same in both argument orders, and zero on the diagonal.
+    {
+        let offs = spec.offsets();
+        for (ci, c) in spec.comps.iter().enumerate() {
+            if let crate::spec::CK::R { n: dim, .. } = &c.kind {
+                let base = lat[r.below(lat.len())].clone();
+                let mk = |vals: &[f64]| {
+                    let mut v = base.clone();
+                    for k in 0..*dim {
+                        v[offs[ci] + k] = vals[k % vals.len()];
+                    }
+                    v
+                };
+                let big = [mk(&[1e200, 1e200]), mk(&[3e200, 2e200]), mk(&[-1e200, 2.5e200]), mk(&[-3e200, -1e200]), mk(&[1e200, -0.0])];
+                for x in &big {
+                    for y in &big {
+                        b.evaluations += 1;
+                        b.count("overflow_band_pairs", 1);
+                        let (sx, sy) = (kit.unflat(x), kit.unflat(y));
+                        let (dxy, dyx) = (sp.distance(&sx, &sy), sp.distance(&sy, &sx));
+                        if dxy.is_nan() && c.weight == 0.0 && !spec.is_plain() {
+                            // (K-4) the component distance overflows to +inf and the compound
+                            // multiplies it by its zero weight: 0 * inf = NaN
+                            report("overflow-times-zero-weight", format!("d(a,b)={dxy}: a zero-weight R^n component whose own distance overflows (coordinates around 1e200)"), x, y, None);
+                        } else if !(dxy >= 0.0) {
+                            report("negative-or-nan", format!("d(a,b)={dxy} for coordinates around 1e200"), x, y, None);
+                        } else if !(dxy == dyx || (dxy - dyx).abs() <= 1e-12 * dxy.abs()) {
+                            report("asymmetric", format!("d(a,b)={dxy} d(b,a)={dyx} for coordinates around 1e200"), x, y, None);
+                        }
+                        // (the other components keep their own d(a,a) tolerance, e.g. SO3's 4e-8)
+                        if x == y && !(dxy <= dist_tol(&spec, 1.0)) && c.weight != 0.0 {
+                            report("self-distance", format!("d(a,a)={dxy} for coordinates around 1e200"), x, y, None);
+                        }
+                    }
+                }
+                break;
+            }
+        }
+    }
     for i in 0..n {
         for j in 0..n {
             let dij = d[i * n + j];
